@@ -104,6 +104,8 @@ func runC09(c *core.Ctx, r *core.Reporter) {
 	c09strk(c, r)
 	c09okclobber(c, r)
 	c09pairs(c, r)
+	c09kany(c, r)
+	c09kwcross(c, r)
 	c09fmt(c, r)
 	c09div(c, r)
 	c09assert(c, r)
